@@ -202,12 +202,12 @@ def GenSt.start (rng : Rng) (n cap : Nat) : GenSt :=
   { rng, n, cap, labels := labelPool n, lines := #["reset", s!"new g0 {n} {cap}"] }
 
 def pickConfig (rng : Rng) : Rng × Nat × Nat :=
-  let (rng, n) := rng.pick [1, 2, 3, 4, 4, 6, 8, 16, 16]
+  let (rng, n) := rng.pick [1, 2, 3, 4, 4, 6, 8, 16, 16, 16, 17, 33]    -- also beyond 16 labels per vertex
   let (rng, k) := rng.below 10
   let (rng, cap) :=
     if k < 4 then let (r, c) := rng.below 11; (r, c + 1)      -- capacity 1 too
     else if k < 8 then let (r, c) := rng.below 24; (r, c + 8)
-    else rng.pick [40, 64, 71, 100, 130, 200, 256]   -- also capacities that are not a multiple of 64 / a power of two
+    else rng.pick [40, 64, 71, 100, 130, 200, 256, 256, 300, 1000]   -- also capacities that are not a multiple of 64 / a power of two, beyond u8
   (rng, n, cap)
 
 def genRandomHistory (rng : Rng) (p : Prof) (len : Nat) : Rng × Array String :=
@@ -485,7 +485,7 @@ def genSlice (rng : Rng) (len : Nat) : Rng × Array String :=
   let (rng, extra) := rng.below 6
   -- one history in four lives at the top of a large, sparse capacity (ids of 57 and more, capacities that are neither
   -- small nor a multiple of 64)
-  let (rng, hr) := rng.pick [0, 0, 0, 0, 0, 0, 57, 64, 70, 100, 150, 230]
+  let (rng, hr) := rng.pick [0, 0, 0, 0, 0, 0, 0, 57, 64, 70, 100, 150, 230, 300, 1000]
   let span := k + extra
   let cap := span + hr
   let s := GenSt.start rng n cap
@@ -587,8 +587,8 @@ def genMerge (rng : Rng) (broken : Bool) : Rng × Array String :=
   let many := 14 + many
   let capR := kr + 1 + extraR + 3 + (if broken ∧ mode = 4 then many else 0)
   -- one merge in four (never a tight one) has its two trees at the top of large, sparse capacities
-  let (rng, hrL) := rng.pick [0, 0, 0, 0, 0, 0, 60, 64, 90, 200]
-  let (rng, hrR) := rng.pick [0, 57, 64, 100, 180]
+  let (rng, hrL) := rng.pick [0, 0, 0, 0, 0, 0, 0, 60, 64, 90, 200, 300, 1000]
+  let (rng, hrR) := rng.pick [0, 57, 64, 100, 180, 290, 990]
   let hrL := if tight = 0 then 0 else hrL
   let hrR := if hrL = 0 then 0 else hrR
   let capBig := capBig + hrL
@@ -733,7 +733,7 @@ def genProfile (profile : String) (seed : Nat) (count len : Nat) : Array String 
         if i % 3 = 2 then
           let w := 1 + (i / 3) % 5
           genOverlap rng ((i / 15) % (12 - w)) w len ((i / 3) % 3)
-        else genCycles rng (i % 14) len
+        else genCycles rng (i % 14) (if i = 1 then len * 8 else len)   -- one long history: more than 256 collections in one graph
       | "fork" => genFork rng len
       | "render" => genRender rng len
       | "slice" => genSlice rng len
